@@ -343,6 +343,10 @@ def run_history(hist, fork=False):
     return in_fork(body)
 
 
+def measure_pair_fork_chunk(pairs):
+    return [measure_pair(p, fork=True) for p in pairs]
+
+
 def run_history_chunk(hists):
     return [run_history(h) for h in hists]
 
